@@ -729,6 +729,17 @@ CO_ERR COSdoDownloadBlock(CO_SDO *srv)
             CO_SET_BYTE(srv->Frm, 0, 3);
             CO_SET_LONG(srv->Frm, 0, 4);
 
+            /* store the acknowledged segments */
+            len = (uint32_t)srv->Buf.Num;
+            if (len > 0u) {
+                err = COObjWrBufCont(srv->Obj, srv->Node, srv->Buf.Start, len);
+                if (err != CO_ERR_NONE) {
+                    srv->Node->Error = CO_ERR_SDO_WRITE;
+                }
+                srv->Buf.Cur = srv->Buf.Start;
+                srv->Buf.Num = 0;
+            }
+
             srv->Blk.SegCnt = 0;
             result          = CO_ERR_NONE;
         }
